@@ -61,13 +61,42 @@ func isIntType(t types.Type) (int, bool, bool) {
 	return 0, false, false
 }
 
+// stripTypeArgs removes instantiation brackets "Name[...]" (not array / map / slice
+// brackets), so that all instantiations of a generic type share one runtime tag.
+func stripTypeArgs(s string) string {
+	var out []byte
+	depth := 0
+	for i := 0; i < len(s); i++ {
+		c := s[i]
+		if depth > 0 {
+			switch c {
+			case '[':
+				depth++
+			case ']':
+				depth--
+			}
+			continue
+		}
+		if c == '[' && i > 0 && isIdentByte(s[i-1]) && !(i >= 3 && s[i-3:i] == "map") {
+			depth = 1
+			continue
+		}
+		out = append(out, c)
+	}
+	return string(out)
+}
+
+func isIdentByte(c byte) bool {
+	return c == '_' || (c >= 'a' && c <= 'z') || (c >= 'A' && c <= 'Z') || (c >= '0' && c <= '9')
+}
+
 func typeKey(t types.Type) string {
 	return types.TypeString(t, func(p *types.Package) string { return p.Path() })
 }
 
 // TID: small positive integer per type, for interface tags and dyn().
 func (tt *TypeTable) TID(t types.Type) int {
-	k := typeKey(t)
+	k := stripTypeArgs(typeKey(t))
 	if id, ok := tt.tids[k]; ok {
 		return id
 	}
